@@ -30,14 +30,6 @@ Proof. intros o x y; apply index_from_inj; lia. Qed.
 Lemma is_var_true : forall v x, is_var v x = true -> v = Some x.
 Proof. intros [y|] x; cbn; [|discriminate]. intros H; apply N.eqb_eq in H; now subst. Qed.
 
-Ltac cmp_cases o x y :=
-  unfold cmp_var;
-  destruct (N.eqb_spec x y); [subst; try lia; try congruence|];
-  destruct (is_var (obot o) x) eqn:?; destruct (is_var (obot o) y) eqn:?;
-  destruct (is_var (otop o) x) eqn:?; destruct (is_var (otop o) y) eqn:?;
-  repeat match goal with H : is_var _ _ = true |- _ => apply is_var_true in H end;
-  try congruence; try lia.
-
 Lemma cmp_var_refl : forall o x, cmp_var o x x = 0.
 Proof. intros; unfold cmp_var; now rewrite N.eqb_refl. Qed.
 
